@@ -581,3 +581,18 @@ func verifLemmaOperationPropsGob(o OperationProps) (OperationProps, error, error
 	err2 := out.GobDecode(b)
 	return out, nil, err2
 }
+
+// a Refable holder encodes and decodes exactly as the reference it holds (C13)
+func verifLemmaRefableEncodesAsRef(r Refable) ([]byte, error, []byte, error) {
+	b1, e1 := r.MarshalJSON()
+	b2, e2 := r.Ref.MarshalJSON()
+	return b1, e1, b2, e2
+}
+
+func verifLemmaRefableDecodesAsRef(data []byte) (Refable, error, Ref, error) {
+	var a Refable
+	var b Ref
+	e1 := a.UnmarshalJSON(data)
+	e2 := b.UnmarshalJSON(data)
+	return a, e1, b, e2
+}
